@@ -8,6 +8,16 @@ SPEC = os.path.join(VERIF, 'spec')
 JAR = '/opt/veriftools/tla/tla2tools.jar'
 DEPS = '/opt/veriftools/tla/CommunityModules-deps.jar'
 
+def die_with_parent():
+    """(child side) ask the kernel to kill this process when the harness that started it goes away - a check ended from outside
+    (timeout, Ctrl-C) must not leave model checkers running"""
+    try:
+        import ctypes
+        ctypes.CDLL('libc.so.6', use_errno=True).prctl(1, signal.SIGKILL)      # PR_SET_PDEATHSIG
+    except Exception:
+        pass
+
+
 _STATS = re.compile(r'^(\d+) states generated, (\d+) distinct states found')
 _SIMSTATS = re.compile(r'states checked|Progress\(')
 
@@ -53,13 +63,14 @@ class TLCRun:
         self.cmd = cmd
         self.t0 = time.time()
         self.proc = subprocess.Popen(cmd, cwd=wd, stdout=subprocess.PIPE, stderr=subprocess.STDOUT, text=True, env=e,
-                                     bufsize=1 << 20, start_new_session=True)
+                                     bufsize=1 << 20, start_new_session=True, preexec_fn=die_with_parent)
         # watchdog: a TLC process that prints nothing for a long time is ended (observed once: a simulation shard went idle);
         # what it emitted before stays valid, the run is marked 'stalled'
         self.last_activity = time.time()
         self.stalled = False
         self.simulating = simulate is not None
         self.thread_died = None
+        self.timed_out = False
         self.stall_after = 600 if simulate is None else 60
         import threading
 
@@ -121,6 +132,7 @@ class TLCRun:
                     self.other.append(line)
                 if self.timeout and time.time() - self.t0 > self.timeout:
                     self.cut = True
+                    self.timed_out = True
                     break
         finally:
             self.close()
